@@ -630,6 +630,11 @@ def gen_cases(rng, tier):
             s3["pose"] = hg.pose(hg.rand_rot(rng), [0.5 * (s1["pose"][i][3] + s2["pose"][i][3]) + 0.2 * hg.body_size(s1) * rng.uniform(-1, 1)
                                                      for i in range(3)])
             bodies.append(dict(c, warm=s3, cls=c["cls"] + "_after_history"))
+    # every second body case keeps its contact surface while another, different pair is computed (the next case's bodies)
+    for k, c in enumerate(bodies):
+        if k % 2 == 0 and len(bodies) > 1:
+            o = bodies[(k + 1) % len(bodies)]
+            c["then"] = dict(b1=o["b1"], b2=o["b2"])
     units = gen_units(rng, 120 if quick else 1200)
     return pairs, bodies, units
 
@@ -1012,6 +1017,9 @@ def run(tier, seed, replay=None):
         if r is None or "exc" in r:
             continue
         rp = [tuple(p) for p in r["reported_pairs"]]
+        if r.get("kept_unchanged") is False:
+            R.failure("a ContactSurface kept while find_contact_surface ran on another pair of bodies was modified (forces / areas / "
+                      "centres / planes / polygons are no longer those it was created with)", c, site="contact_surface_forces")
         if len(set(rp)) != len(rp):
             R.failure("find_contact_surface reports a tetrahedron pair twice", c, site="find_contact_surface")
         if r["intersection"] != (len(rp) > 0):
